@@ -114,6 +114,9 @@ def gen_base(rng, opts):
             params.append({"rows": rng.choice([1, 1, 2]), "cols": 1, "grid": g})
         if rng.random() < opts.get("p_var", 0.35):
             vars_.append({"rows": rng.choice([1, 1, 2]), "cols": 1, "grid": g})
+    # declaration order is not tied to the grid kind (rockit keeps one table per kind)
+    rng.shuffle(params)
+    rng.shuffle(vars_)
     case["params"] = params
     case["vars"] = vars_
     N = rng.randint(opts.get("N_min", 1), opts.get("N_max", 4))
@@ -318,7 +321,7 @@ def gen_path_constraint(rng, case, opts):
         c["include_first"] = c["include_last"] = True
     if rng.random() < opts.get("p_cscale", 0.25):
         c["scale"] = jq(rng.choice([2, 4, Fraction(1, 2), 8]))
-    form = rng.choice(["le", "le", "eq", "between", "ge", "vec"])
+    form = rng.choice(["le", "le", "eq", "between", "ge", "vec", "between_vec"])
     mk = lambda: signal_expr(rng, case, kinds, 2, allow_dt=(grid == "control"))
     if grid == "control" and rng.random() < opts.get("p_offset", 0.3):
         mk0 = mk
@@ -333,6 +336,24 @@ def gen_path_constraint(rng, case, opts):
         e = mk()
         c["form"] = "between"
         c["rels"] = [{"rel": "le", "lhs": lo, "rhs": e}, {"rel": "le", "lhs": e, "rhs": hi}]
+    elif form == "between_vec":
+        # DM([lo..]) <= (vertcat(e..) <= DM([hi..])) with some infinite entries
+        n = rng.randint(2, 3)
+        es = [mk() for _ in range(n)]
+        lo = [jq(dyadic(rng, -3, 0, 1)) if rng.random() < 0.6 else None for _ in range(n)]
+        hi = [jq(dyadic(rng, 1, 3, 1)) if rng.random() < 0.6 else None for _ in range(n)]
+        if all(v is None for v in lo):
+            lo[0] = jq(dyadic(rng, -3, 0, 1))
+        if all(v is None for v in hi):
+            hi[-1] = jq(dyadic(rng, 1, 3, 1))
+        c["form"] = "between_vec"
+        c["vb"] = {"exprs": es, "lo": lo, "hi": hi}
+        c["rels"] = []
+        for e, l, h in zip(es, lo, hi):
+            if l is not None:
+                c["rels"].append({"rel": "le", "lhs": C(Fr(l)), "rhs": e})
+            if h is not None:
+                c["rels"].append({"rel": "le", "lhs": e, "rhs": C(Fr(h))})
     elif form == "ge":
         c["form"] = "ge"
         c["rels"] = [{"rel": "le", "lhs": bound(), "rhs": mk()}]
